@@ -45,7 +45,9 @@ type scanFeat struct {
 	advIterErrNil, advIterErr  bool
 }
 
-func scanFeatures(sp *SymPath) *scanFeat {
+func scanFeatures(sp *SymPath) *scanFeat { return scanFeaturesKey(sp, "P:key") }
+
+func scanFeaturesKey(sp *SymPath, keyAtom string) *scanFeat {
 	f := &scanFeat{sp: sp, cbArgsOK: true}
 	var advs []string
 	nameAtom := ""
@@ -124,10 +126,10 @@ func scanFeatures(sp *SymPath) *scanFeat {
 		case nameAtom != "" && l == nameAtom+".1" && r == "nil":
 			f.nameErrNil = f.nameErrNil || cd.Op == token.EQL
 			f.nameErrSet = f.nameErrSet || cd.Op == token.NEQ
-		case r == "len(P:key)" && reAdvNo.ReplaceAllString(l, "@A") == "L:tmp.tape.Tape[L:tmp.off@A]":
+		case r == "len("+keyAtom+")" && reAdvNo.ReplaceAllString(l, "@A") == "L:tmp.tape.Tape[L:tmp.off@A]":
 			f.lenEQ = f.lenEQ || cd.Op == token.EQL
 			f.lenNE = f.lenNE || cd.Op == token.NEQ
-		case nameAtom != "" && l == "string("+nameAtom+".0)" && r == "P:key":
+		case nameAtom != "" && l == "string("+nameAtom+".0)" && r == keyAtom:
 			f.keyEQ = f.keyEQ || cd.Op == token.EQL
 			f.keyNE = f.keyNE || cd.Op == token.NEQ
 		case l == "len(P:onlyKeys)" && cd.R.IsConst() && cd.R.K == 0:
@@ -152,6 +154,7 @@ func scanFeatures(sp *SymPath) *scanFeat {
 // (equal key / key in the filter / callback result); every way out of the loop has its documented reason.
 func ruleKeyScanSem(c *Ctx) {
 	p := c.G()
+	findPathScan(c, p)
 	for _, fn := range []string{"Object.FindKey", "Object.ForEach", "Object.DeleteElems"} {
 		fd := p.Func(fn)
 		if fd == nil {
@@ -353,4 +356,164 @@ func emptyFill(sp *SymPath) bool {
 		}
 	}
 	return false
+}
+
+
+// findPathScan — Object.FindPath: like FindKey per level; a matching member ends the search when the path is used up
+// (element filled from AdvanceIter on the value) and otherwise must be an object that the scan descends into with the
+// next path component as the new key.
+func findPathScan(c *Ctx, p *GoProg) {
+	fn := "Object.FindPath"
+	fd := p.Func(fn)
+	if fd == nil {
+		c.Unresolved(fn, "function not found")
+		return
+	}
+	loop := outerLoop(fd)
+	if loop == nil {
+		c.Unresolved(fn+":loop", "scan loop not found")
+		return
+	}
+	objType, ok := p.PkgConstInt("TypeObject")
+	if !ok {
+		c.Unresolved("TypeObject", "constant not found")
+		return
+	}
+	fg := p.FGOf(fd)
+	head := fg.LoopHead(loop)
+	pre, okp := fg.EnumSegment(0, 0, map[int]bool{head: true}, 1000)
+	startOK := okp && len(pre) >= 2
+	nEmpty := 0
+	for _, pa := range pre {
+		env := p.NewFuncEnv(fd)
+		sp := p.ExecPath(pa, env)
+		if sp.RetNode != nil {
+			// empty path: not found
+			nEmpty++
+			if !(hasCond(sp, "len(P:path)", token.EQL, "0") && len(sp.Ret) == 2 && sp.Ret[0].String() == "P:dst" && sp.Ret[1].String() == "ErrPathNotFound") {
+				startOK = false
+			}
+			continue
+		}
+		st := map[string]string{}
+		for _, ef := range sp.Effects {
+			if ef.Kind == "store" {
+				st[ef.Target] = reCallNum.ReplaceAllString(ef.Val.String(), "")
+			}
+		}
+		off := st["L:tmp.off"]
+		if off == "" {
+			for k, v := range st {
+				if strings.HasSuffix(k, ".off") && strings.Contains(k, "Iter()") {
+					off = v
+				}
+			}
+		}
+		if off != "R.off" || st["L:tmp"] != "R.tape.ParsedJson.Iter()" || st["L:key"] != "P:path[0]" || st["P:path"] != "P:path[1:]" {
+			startOK = false
+		}
+	}
+	c.Check(startOK && nEmpty == 1, fn+":start", p.Pos(fd), "empty path → not found; scan starts at the object with key = path[0], rest = path[1:]", fn+" does not start as documented (empty path, iterator at the object, first component as key)", "FindPath(nil, \"a\", \"b\")")
+
+	sps := p.LoopSegmentPaths(fd, loop, 50000)
+	bad := map[string]string{}
+	note := func(site, msg string, sp *SymPath) {
+		if _, dup := bad[site]; !dup {
+			bad[site] = msg + condsDesc(sp, 8)
+		}
+	}
+	nFound, nDescend, nCont := 0, 0, 0
+	for _, sp := range sps {
+		if !sp.Feasible() {
+			continue
+		}
+		f := scanFeaturesKey(sp, "L:key")
+		if f.nameCalled && !f.nameArgsOK {
+			note("name", "the member name is not read as stringByteAt(cur, Tape[off]) of the key entry just delivered by Advance", sp)
+		}
+		passedHead := f.keyString && !f.headStop
+		matched := passedHead && f.nameErrNil && f.keyEQ && !f.keyNE && (f.lenEQ || !f.lenNE)
+		mismatch := passedHead && (f.lenNE || (f.nameErrNil && f.keyNE))
+		lastComp := hasCond(sp, "len(P:path)", token.EQL, "0")
+		moreComp := hasCond(sp, "len(P:path)", token.NEQ, "0")
+		if sp.Continues {
+			nCont++
+			switch {
+			case mismatch && !f.keyEQ:
+				if f.nAdvance != 2 || (f.valNone && !f.valSome) || f.advIter != "" {
+					note("continue", "a mismatching member's value is not skipped with exactly one Advance", sp)
+				}
+			case matched && moreComp:
+				nDescend++
+				desc := strings.Contains(f.advIter, "AdvanceIter(&L:tmp)") && f.advIterErrNil && hasCond(sp, f.advIter+".0", token.EQL, fmt.Sprint(objType)) && f.nAdvance == 1
+				var keySt, pathSt string
+				for _, ef := range sp.Effects {
+					if ef.Kind == "store" && ef.Target == "L:key" {
+						keySt = ef.Val.String()
+					}
+					if ef.Kind == "store" && ef.Target == "P:path" {
+						pathSt = ef.Val.String()
+					}
+				}
+				if !desc || keySt != "P:path[0]" || pathSt != "P:path[1:]" {
+					note("descend", "a matching member with path left is not entered with AdvanceIter(&tmp) (must be an object) and the next component as key", sp)
+				}
+			default:
+				note("continue", "the scan continues without a name mismatch or a descent into a matching object", sp)
+			}
+			continue
+		}
+		if sp.RetNode == nil || len(sp.Ret) != 2 {
+			continue
+		}
+		errS := sp.Ret[1].String()
+		switch {
+		case isNilAff(sp.Ret[1]):
+			nFound++
+			var nameSt, typeSt string
+			for _, ef := range sp.Effects {
+				if ef.Kind == "store" && strings.HasSuffix(ef.Target, ".Name") {
+					nameSt = ef.Val.String()
+				}
+				if ef.Kind == "store" && strings.HasSuffix(ef.Target, ".Type") {
+					typeSt = ef.Val.String()
+				}
+			}
+			ret := sp.Ret[0].String()
+			dstNil := hasCond(sp, "P:dst", token.EQL, "nil")
+			dstSet := hasCond(sp, "P:dst", token.NEQ, "nil")
+			if !(matched && lastComp) {
+				note("found", "success is reported without the last path component having matched a member name", sp)
+			}
+			if !(nameSt == "L:key" && f.advIter != "" && strings.Contains(f.advIter, "AdvanceIter(&P:dst.Iter)") && typeSt == f.advIter+".0" && f.advIterErrNil && f.nAdvance == 1) {
+				note("found", "the returned element is not {Name: key, Type/Iter: AdvanceIter of the member's value}", sp)
+			}
+			if !(dstNil && strings.HasPrefix(ret, "&lit:Element{") || dstSet && ret == "P:dst") {
+				note("found", "the result is not the supplied destination, or a fresh Element when none was supplied", sp)
+			}
+		case errS == "ErrPathNotFound":
+			if !(f.headStop || f.valNone) {
+				note("notfound", "ErrPathNotFound is returned without the object having ended", sp)
+			}
+		case f.nameErrSet:
+			if errS != strings.TrimSuffix(errS, "") || !strings.Contains(errS, "stringByteAt") {
+				note("error", "a name error is not returned", sp)
+			}
+		case f.advIterErr:
+			if errS != f.advIter+".1" {
+				note("error", "an AdvanceIter error is not returned", sp)
+			}
+		case matched && moreComp && f.advIterErrNil && hasCond(sp, f.advIter+".0", token.NEQ, fmt.Sprint(objType)):
+			// non-object on the path: a fresh error
+		default:
+			note("error", "an error is returned without a reason the documentation names", sp)
+		}
+	}
+	if nFound < 2 || nDescend < 1 || nCont < 3 {
+		bad["shape"] = fmt.Sprintf("expected found/descend/continue paths, got %d/%d/%d", nFound, nDescend, nCont)
+	}
+	for _, s := range []string{"name", "continue", "descend", "found", "notfound", "error", "shape"} {
+		msg, isBad := bad[s]
+		c.Check(!isBad, fn+":scan:"+s, p.Pos(fd), "as documented on every path of one iteration", fn+": "+msg, `{"a":{"b":1,"c":2},"ab":3} with path a/c`)
+	}
 }
